@@ -25,8 +25,24 @@ proof fn spec_header_constants() ensures MAJOR == 1 && MINOR == 0 && REVISION ==
 //@@ type file=fe2o3-amqp/src/transport/protocol_header.rs kind=struct name=ProtocolHeader clone
 //@@ end
 impl ProtocolHeader {
-    pub fn amqp() -> (r: Self) ensures r == (ProtocolHeader { id: ProtocolId::Amqp, major: MAJOR, minor: MINOR, revision: REVISION }) { ProtocolHeader { id: ProtocolId::Amqp, major: MAJOR, minor: MINOR, revision: REVISION } }
-    pub fn sasl() -> (r: Self) ensures r == (ProtocolHeader { id: ProtocolId::Sasl, major: MAJOR, minor: MINOR, revision: REVISION }) { ProtocolHeader { id: ProtocolId::Sasl, major: MAJOR, minor: MINOR, revision: REVISION } }
+//@@ fn file=fe2o3-amqp/src/transport/protocol_header.rs impl=`impl Default for ProtocolHeader` name=default as=default_hdr id=ProtocolHeader::default
+//@@ subst `fe2o3_amqp_types::definitions::` => `` rule=R2
+//@@ subst `Self {` => `ProtocolHeader {` rule=optional-R2
+//@@ spec
+    ensures r == (ProtocolHeader { id: ProtocolId::Amqp, major: MAJOR, minor: MINOR, revision: REVISION }),       // (the default header: AMQP, version 1.0.0)
+//@@ end
+//@@ fn file=fe2o3-amqp/src/transport/protocol_header.rs impl=`impl ProtocolHeader` name=amqp
+//@@ subst `..Default::default()` => `..ProtocolHeader::default_hdr()` rule=R16
+//@@ subst `Self {` => `ProtocolHeader {` rule=optional-R2
+//@@ spec
+    ensures r == (ProtocolHeader { id: ProtocolId::Amqp, major: MAJOR, minor: MINOR, revision: REVISION }),       // [C06.header.amqp-is-amqp-1-0-0] [C19.header.amqp-is-amqp-1-0-0] the AMQP header this library sends and expects: protocol id AMQP, version 1.0.0
+//@@ end
+//@@ fn file=fe2o3-amqp/src/transport/protocol_header.rs impl=`impl ProtocolHeader` name=sasl
+//@@ subst `..Default::default()` => `..ProtocolHeader::default_hdr()` rule=R16
+//@@ subst `Self {` => `ProtocolHeader {` rule=optional-R2
+//@@ spec
+    ensures r == (ProtocolHeader { id: ProtocolId::Sasl, major: MAJOR, minor: MINOR, revision: REVISION }),       // [C19.header.sasl-is-sasl-1-0-0] the SASL header: protocol id SASL (3), version 1.0.0 -- a peer that skips the SASL layer sends the other one and is refused
+//@@ end
 //@@ fn file=fe2o3-amqp/src/transport/protocol_header.rs impl=`impl ProtocolHeader` name=is_sasl
 //@@ spec
     ensures r == (self.id is Sasl),
